@@ -10,6 +10,7 @@ mod c08;
 mod c09;
 mod c10;
 mod c11;
+mod c12;
 mod c13;
 mod c14;
 mod c15;
@@ -46,6 +47,7 @@ fn main() {
             "C09" => c09::replay(r),
             "C10" => c10::replay(r),
             "C11" => c11::replay(r),
+            "C12" => c12::replay(r),
             "C13" => c13::replay(r),
             "C14" => c14::replay(r),
             "C15" => c15::replay(r),
@@ -69,6 +71,7 @@ fn main() {
         "C09" => c09::run(tier),
         "C10" => c10::run(tier),
         "C11" => c11::run(tier),
+        "C12" => c12::run(tier),
         "C13" => c13::run(tier),
         "C14" => c14::run(tier),
         "C15" => c15::run(tier),
